@@ -6,8 +6,15 @@ Standing well-formedness (`WF`): what the agent and the servers themselves maint
 a registered check is bound to a registered service (`addCheckLocked`, service removed with its
 checks), the catalog holds no check of a service it does not hold (`ensureCheckTxn`,
 `deleteServiceTxn`), no empty ids. All theorems hold for every map-iteration order (`ord`).
+
+Scope of the model (`CaseDistinct`): the real catalog lower-cases service and check ids in its
+index keys while the agent keys its maps case-sensitively; the model keys the catalog exactly.
+Model and implementation therefore agree only on histories in which no two ids in play differ
+only in case. The convergence theorems carry this as an explicit hypothesis (their proofs, being
+about the model, do not use it — it delimits what they say about the implementation); outside it
+convergence fails on the implementation (known finding `case-fold:…`, replayed by the harness).
 -/
-import CV.Proofs.AEFail
+import CV.Proofs.AELocal
 set_option linter.unusedVariables false
 namespace CV.AE
 open AMap
@@ -36,7 +43,7 @@ def Converged (cfg : Cfg) (l : Local) (r : St) : Prop :=
 /-- Convergence, for all local states, catalogs and iteration orders, under the explicit
     hypothesis that no check pending removal is bound elsewhere in the catalog. -/
 theorem clean_full_sync_converges_partial (cfg : Cfg) (ord : Order) (f : Faults) (l : Local) (c : Cat)
-    (hf : AllOk f) (hw : WF l c) (hnr : NoRebound l c) :
+    (hf : AllOk f) (hw : WF l c) (hnr : NoRebound l c) (hcd : CaseDistinct l c) :
     Converged cfg l (syncFull cfg ord f l c) := by
   obtain ⟨hrs, hrc, hno, hso, hco⟩ := hf
   obtain ⟨hl, hc, hn⟩ := hw
@@ -201,6 +208,10 @@ theorem absorb_server_owned (d rs : SvcDef) :
   simp only
   split <;> split <;> simp_all
 
+/-- … and of the tagged addresses only the `consul-` prefixed keys -/
+theorem absorb_keeps_unreserved_tagged_addresses (d rs : SvcDef) (k : String) (hk : reservedKey k = false) :
+    taGet (absorb d rs).ta k = taGet d.ta k := absorb_ta d rs k hk
+
 /-! ## 3. soundness of the in-sync marks -/
 
 /-- Sync steps keep the marks sound for every pattern of RPC outcomes and every order: an entry
@@ -352,11 +363,27 @@ theorem sync_full_preserves_wf (cfg : Cfg) (ord : Order) (f : Faults) (l : Local
 /-- Whatever went wrong in a full sync (`f₁`, any order), the next full sync whose RPCs succeed
     converges. -/
 theorem repair_after_failure (cfg : Cfg) (ord₁ ord₂ : Order) (f₁ f₂ : Faults) (l : Local) (c : Cat)
-    (hw : WF l c) (hnr : NoRebound l c) (hf : AllOk f₂) :
+    (hw : WF l c) (hnr : NoRebound l c) (hf : AllOk f₂)
+    (hcd : CaseDistinct (syncFull cfg ord₁ f₁ l c).l (syncFull cfg ord₁ f₁ l c).c) :
     Converged cfg (syncFull cfg ord₁ f₁ l c).l
       (syncFull cfg ord₂ f₂ (syncFull cfg ord₁ f₁ l c).l (syncFull cfg ord₁ f₁ l c).c) := by
   obtain ⟨hw', hnr'⟩ := sync_full_preserves_wf cfg ord₁ f₁ l c hw hnr
-  exact clean_full_sync_converges_partial cfg ord₂ f₂ _ _ hf hw' hnr'
+  exact clean_full_sync_converges_partial cfg ord₂ f₂ _ _ hf hw' hnr' hcd
+
+/-- `LocalWF` is not an assumption about luck: the operations the agent performs on its local state
+    (register a service; add a check for a registered service; remove a check; update a check;
+    remove a service together with all the checks bound to it) all preserve it. -/
+theorem agent_operations_keep_LocalWF (l l' : Local) (hw : LocalWF l) :
+    (∀ id d tok loc, addSvc1 l id d tok loc = (.ok, l') → LocalWF l') ∧
+    (∀ k d tok loc, addChk1 l k d tok loc = (.ok, l') → (d.sid ≠ "" → liveSvc l d.sid ≠ none) → LocalWF l') ∧
+    (∀ k, rmChk l k = (.ok, l') → LocalWF l') ∧
+    (∀ k st, LocalWF (updChk l k st)) ∧
+    (∀ id ks, rmSvc l id ks = (.ok, l') → (∀ k d, liveChk l k = some d → d.sid = id → k ∈ ks) → LocalWF l') :=
+  ⟨fun id d tok loc h => (addSvc1_LocalWF l l' id d tok loc h hw).1,
+   fun k d tok loc h hs => (addChk1_LocalWF l l' k d tok loc h hs hw).1,
+   fun k h => (rmChk_LocalWF l l' k h hw).1,
+   fun k st => updChk_LocalWF l k st hw,
+   fun id ks h hall => rmSvc_LocalWF l l' id ks h hall hw⟩
 
 /-! ## 7. the scheduler (agent/ae): a failed full sync is retried as a full sync -/
 
@@ -413,8 +440,22 @@ theorem ok_norebound : NoRebound okL okC := by
   simp only [okL, get?] at h
   split at h <;> simp at h
 
+theorem ok_casedistinct : CaseDistinct okL okC := by
+  intro a b ha hb h
+  have ha' := mentions_mem okL okC a ha
+  have hb' := mentions_mem okL okC b hb
+  simp only [okL, okC, AMap.keys, List.map, List.cons_append, List.nil_append, List.mem_cons, List.not_mem_nil, or_false] at ha' hb'
+  rcases ha' with rfl | rfl | rfl | rfl | rfl | rfl <;> rcases hb' with rfl | rfl | rfl | rfl | rfl | rfl <;>
+    first | rfl | (exfalso; revert h; decide)
+
 example : Converged exCfg okL (syncFull exCfg ⟨["web"], []⟩ allOk okL okC) :=
-  clean_full_sync_converges_partial _ _ _ _ _ allOk_ok ok_wf ok_norebound
+  clean_full_sync_converges_partial _ _ _ _ _ allOk_ok ok_wf ok_norebound ok_casedistinct
+
+/-- the hypothesis is not idle: ids that differ only in case are excluded -/
+example : ¬ CaseDistinct { okL with svcs := ("Web", .ghost false) :: okL.svcs } okC := by
+  intro h
+  have := h "Web" "web" (Or.inl (by decide)) (Or.inl (by decide)) (by decide)
+  revert this; decide
 
 -- executable sanity checks of the same run (tests, not theorems)
 #guard (syncFull exCfg ⟨["web"], []⟩ allOk okL okC).c.svcs.get? "db" == none
